@@ -93,6 +93,16 @@ def gen_history(rng):
         if k < 4:
             s = ok_snippet(rng, uid, defined)
             a.append(s); b.append(s); kinds.append("ok")
+        elif k < 8 and rng.chance(1, 5):
+            # the failing function had stored a closure over one of its locals in a global: the definition it completed (the global) stays,
+            # and the closure still sees the variable it captured (expected output known by construction)
+            how = rng.choice(['var z = nil + 1;', 'throw "after capture";', 'undefined_name_%d;' % uid, 'return [1][7];'])
+            f = ('var kept%d = nil;\nfn cap%d() { var pad = %d; var held = "held%d"; kept%d = || held + String.from(pad); %s }\ncap%d();\n'
+                 % (uid, uid, uid, uid, uid, how, uid))
+            a.append(f); b.append("var kept%d = nil;\n" % uid); kinds.append("fail-capture")
+            use = 'var other%d = [%d, %d]; print(kept%d());\n' % (uid, uid, uid, uid)
+            a.append(use); b.append(use); kinds.append("failuse:held%d%d" % (uid, uid))
+            a.append(PROBE); b.append(PROBE); kinds.append("probe")
         elif k < 8:
             d, f, which = failing_snippet(rng, uid)
             a.append(f); b.append(d); kinds.append("fail%d" % which)
@@ -197,6 +207,15 @@ def correspondence(ctx, model_ok=True):
                                      "residue": st["residue"], "kinds": kinds,
                                      "signature": "residue " + residue_name(st["residue"]), "failing_input": True})
                     break
+            for j, (st, kk) in enumerate(zip(oa, kinds)):
+                if kk.startswith("failuse:"):
+                    c = progs.canon_step(st)
+                    if c[0] != "ok" or list(c[2]) != [kk.split(":", 1)[1]]:
+                        failures.append({"what": "a closure stored in a global by a function that then failed no longer sees the variable it captured: "
+                                                 "prints %s (%s), expected %r" % (list(c[2]) if len(c) > 2 else c, c[0], kk.split(":", 1)[1]),
+                                         "history": a, "snippet_index": j, "build": bname, "kinds": kinds,
+                                         "signature": "capture lost after the capturing function failed", "failing_input": True})
+                        break
             # (b) failing snippet vs its definitions: later non-failing snippets must print the same
             if len(oa) == len(ob):
                 for j, (sa, sb, kk) in enumerate(zip(oa, ob, kinds)):
